@@ -1,10 +1,13 @@
 package replay
 
 import (
+	"encoding/json"
 	"errors"
 	"fmt"
 	"io"
 	"strings"
+	"sync"
+	"sync/atomic"
 
 	"github.com/ipld/go-ipld-prime/datamodel"
 	"github.com/ipld/go-ipld-prime/linking"
@@ -483,6 +486,11 @@ func ReplayWalk(cs *WalkCase, o WalkOpts) (*run.Finding, int) {
 		}
 		checks++
 	}
+	if o.Paths {
+		if f := checkPathsUnderReifier(gr, cs, &checks); f != nil {
+			return f, checks
+		}
+	}
 	if o.Paths && !hasAs(cs.Sel) { // below a reified node paths are relative to the reified view (Traversal!VisitedPathsResolve)
 		if f := checkPaths(gr, cs, r, &checks); f != nil {
 			return f, checks
@@ -537,6 +545,120 @@ func hasAs(s SelAST) bool {
 	}
 	return false
 }
+
+var reifierGraphsDone sync.Map
+
+// addMarkEntry is a NodeReifier that changes the VIEW of every loaded map block: the same entries plus one more
+// ("~reified": 1) -- what an ADL or a migration shim does.
+func addMarkEntry(_ linking.LinkContext, n datamodel.Node, _ *linking.LinkSystem) (datamodel.Node, error) {
+	if n.Kind() != datamodel.Kind_Map {
+		return n, nil
+	}
+	nb := basicnode.Prototype.Map.NewBuilder()
+	ma, err := nb.BeginMap(n.Length() + 1)
+	if err != nil {
+		return nil, err
+	}
+	for it := n.MapIterator(); !it.Done(); {
+		k, v, err := it.Next()
+		if err != nil {
+			return nil, err
+		}
+		if err := ma.AssembleKey().AssignNode(k); err != nil {
+			return nil, err
+		}
+		if err := ma.AssembleValue().AssignNode(v); err != nil {
+			return nil, err
+		}
+	}
+	va, err := ma.AssembleEntry("~reified")
+	if err != nil {
+		return nil, err
+	}
+	va.AssignInt(1)
+	if err := ma.Finish(); err != nil {
+		return nil, err
+	}
+	return nb.Build(), nil
+}
+
+// checkPathsUnderReifier: C14 under another configuration of the link system -- a NodeReifier that changes what loaded
+// blocks look like.  Whatever the walk visits at a path, Get, Focus and a stepwise lookup (all loading through the same
+// link system) find at that path.  Once per graph; no expectation about WHAT is visited is needed.
+func checkPathsUnderReifier(gr *Graph, cs *WalkCase, checks *int) *run.Finding {
+	key, _ := json.Marshal(cs.G)
+	if _, done := reifierGraphsDone.LoadOrStore(string(key), true); done {
+		return nil
+	}
+	fail := func(target, rule, class, detail string) *run.Finding {
+		return &run.Finding{Step: -1, Target: target, Rule: rule, Class: class, Detail: "link system with a NodeReifier that adds an entry to every loaded map: " + detail}
+	}
+	ls := gr.LS
+	ls.NodeReifier = addMarkEntry
+	cfg := &traversal.Config{LinkSystem: ls, LinkTargetNodePrototypeChooser: func(datamodel.Link, linking.LinkContext) (datamodel.NodePrototype, error) {
+		return basicnode.Prototype.Any, nil
+	}}
+	sel, err := selector.CompileSelector(SelectorDMT(SelAST{T: "rec", A: []int{-1, -1}, Ss: []SelAST{{T: "union", Ss: []SelAST{{T: "match"}, {T: "all", Ss: []SelAST{{T: "edge"}}}}}}}, gr.Links))
+	if err != nil {
+		return fail("harness", "compile", "error", err.Error())
+	}
+	type seen struct {
+		path datamodel.Path
+		node datamodel.Node
+	}
+	var visits []seen
+	if p := model.Safe(func() {
+		err = traversal.Progress{Cfg: cfg}.WalkMatching(gr.Root, sel, func(pr traversal.Progress, n datamodel.Node) error {
+			visits = append(visits, seen{pr.Path, n})
+			return nil
+		})
+	}); p != nil {
+		return fail("traversal.WalkMatching", "walk", "panic", fmt.Sprint(p))
+	}
+	if err != nil {
+		return fail("traversal.WalkMatching", "walk", "error", err.Error())
+	}
+	marked := 0
+	for _, v := range visits {
+		want, perr := model.Project(v.node)
+		if perr != nil {
+			continue
+		}
+		if l := v.path.Len(); l > 0 && v.path.Last().String() == "~reified" {
+			marked++
+		}
+		var got datamodel.Node
+		var gerr error
+		if p := model.Safe(func() { got, gerr = traversal.Progress{Cfg: cfg}.Get(gr.Root, v.path) }); p != nil {
+			return fail("traversal.Get", "Resolve(path)=visited", "panic", fmt.Sprintf("path %q: %v", v.path.String(), p))
+		}
+		if gerr != nil {
+			return fail("traversal.Get", "Resolve(path)=visited", "error", fmt.Sprintf("path %q (visited by the walk): %v", v.path.String(), gerr))
+		}
+		if gv, e := model.Project(got); e != nil || !gv.Equal(want) {
+			return fail("traversal.Get", "Resolve(path)=visited", "different-node", fmt.Sprintf("path %q: Get returned %v (%v), the walk visited %v", v.path.String(), gv, e, want))
+		}
+		var fn datamodel.Node
+		var ferr error
+		if p := model.Safe(func() {
+			ferr = traversal.Progress{Cfg: cfg}.Focus(gr.Root, v.path, func(_ traversal.Progress, n datamodel.Node) error { fn = n; return nil })
+		}); p != nil {
+			return fail("traversal.Focus", "Resolve(path)=visited", "panic", fmt.Sprintf("path %q: %v", v.path.String(), p))
+		}
+		if ferr != nil {
+			return fail("traversal.Focus", "Resolve(path)=visited", "error", fmt.Sprintf("path %q (visited by the walk): %v", v.path.String(), ferr))
+		}
+		if fv, e := model.Project(fn); e != nil || !fv.Equal(want) {
+			return fail("traversal.Focus", "Resolve(path)=visited", "different-node", fmt.Sprintf("path %q: Focus reached %v (%v), the walk visited %v", v.path.String(), fv, e, want))
+		}
+		*checks += 2
+	}
+	atomic.AddInt64(&ReifierMarkedVisits, int64(marked))
+	return nil
+}
+
+// ReifierMarkedVisits: how many visited paths end in the entry only the reifier adds (non-vacuity of checkPathsUnderReifier)
+var ReifierMarkedVisits int64
 
 // checkPaths: C14 -- the Path objects handed to the callbacks are resolved again AFTER the walk.
 func checkPaths(gr *Graph, cs *WalkCase, r WalkRun, checks *int) *run.Finding {
